@@ -109,7 +109,7 @@ def _r091(ck, prog, cfg):
                      fn.where(t["ln"]), detail="pending_acks taken on every path after sync()",
                      path_lines=[fn.term(x).get("ln") for x in (path or [])])
     ck.floor("R09.5" + _tag(cfg), n5, 1)
-    ck.floor("R09.1" + _tag(cfg), n_ok_sites + n_err_sites, 4)
+    ck.floor("R09.1" + _tag(cfg), n_ok_sites + n_err_sites, 2)
     ck.check(n_ok_sites >= 1, "R09.1", "ok-site-exists" + _tag(cfg), "no Ok-ack site found after sync (anchor lost)")
 
 
